@@ -15,6 +15,17 @@ import tempfile
 VERIF = os.path.dirname(os.path.dirname(os.path.abspath(__file__)))
 
 
+KNOWN = json.load(open(os.path.join(VERIF, "known_findings.json"))).get("findings", [])
+
+
+def known(unit, e):
+    """a failing clause that known_findings.json lists (by unit, function and tag) is reported as KNOWN-FINDING by the checks"""
+    for k in KNOWN:
+        if k.get("tag") and k.get("unit") == unit and k.get("function") == e.get("fn") and k["tag"] in (e.get("tags") or []):
+            return True
+    return False
+
+
 def one(diff, wd):
     rdir = os.path.join(wd, "repo")
     shutil.rmtree(rdir, ignore_errors=True)
@@ -39,8 +50,8 @@ def one(diff, wd):
     for r in rs:
         if r["status"] != "ok":
             bad.append("UNDECIDED unit %s: %s" % (r["unit"], r["undecided"]))
-        elif r["errors"]:
-            bad.append("FALSE-ALARM unit %s: %s" % (r["unit"], r["errors"][:2]))
+        elif [e for e in r["errors"] if not known(r["unit"], e)]:
+            bad.append("FALSE-ALARM unit %s: %s" % (r["unit"], [e for e in r["errors"] if not known(r["unit"], e)][:2]))
     return "; ".join(bad) if bad else "all %d units OK" % len(rs)
 
 
